@@ -27,6 +27,7 @@ NAMED = {
     "distributed_slack": [False, True],
     "tdpf_delay_s": [None, 10],
 }
+RECYCLE = {"bus_pq": False, "trafo": False, "gen": False}
 KWONLY = {
     "numba": [True, False],
     "switch_rx_ratio": [2, 3],
@@ -36,6 +37,11 @@ KWONLY = {
     "only_v_results": [False, True],
     "neglect_open_switch_branches": [False, True],
     "use_umfpack": [True, False],
+    # optional arguments whose automatic value is None: passing None explicitly is still "passed"
+    "init_vm_pu": [None, "flat"],
+    "init_va_degree": [None, "flat", "dc"],
+    "permc_spec": [None, "NATURAL"],
+    "recycle": [None, RECYCLE],
 }
 OPT_NAME = {"delta_q": "delta"}          # kwargs key -> key in net._options
 
@@ -93,6 +99,9 @@ def obs(options, key):
     if key == "max_iteration":
         v = options.get("max_iteration")
         return v if v in (7, 13) else "auto"
+    if key in ("init_vm_pu", "init_va_degree"):
+        v = options.get(key)
+        return v if isinstance(v, str) and v in ("flat", "dc") else None
     return options.get(OPT_NAME.get(key, key))
 
 
@@ -100,6 +109,10 @@ def consistent(assign):
     """combinations the code rejects by design are not generated"""
     alg = assign.get("algorithm", "nr")
     if assign.get("distributed_slack") and alg != "nr":
+        return False
+    # `init` and init_vm_pu/init_va_degree are alternative ways to say the same thing (the code raises when both are
+    # given); cases use one or the other so that each has its own observable
+    if "init" in assign and ("init_vm_pu" in assign or "init_va_degree" in assign):
         return False
     return True
 
@@ -111,12 +124,16 @@ def gen_cases(ctx, defaults):
     for k, dom in NAMED.items():
         for e in [None] + list(range(len(dom))):
             for u in [None] + list(range(len(dom))):
-                if u is not None and dom[u] == "auto":
+                if u is not None and ((isinstance(dom[u], str) and dom[u] == "auto") or dom[u] is None):
                     continue          # storing the sentinel "auto" is outside the property (see DESIGN side notes)
                 cases.append(({k: dom[e]} if e is not None else {}, {k: dom[u]} if u is not None else {}))
     for k, dom in KWONLY.items():
         for e in [None] + list(range(len(dom))):
             for u in [None] + list(range(len(dom))):
+                if e is not None and isinstance(dom[e], dict):
+                    continue      # an explicit recycle dict re-uses the previous run's options by design
+                if u is not None and dom[u] is None:
+                    continue      # storing the "automatic" sentinel None is outside the property
                 cases.append(({k: dom[e]} if e is not None else {}, {k: dom[u]} if u is not None else {}))
     n_multi = ctx.budget(60, 1500)
     allk = {**NAMED, **KWONLY}
@@ -127,10 +144,10 @@ def gen_cases(ctx, defaults):
             dom = allk[k]
             r = rng.random()
             if r < 0.6:
-                E[k] = rng.choice(dom)
+                E[k] = rng.choice([v for v in dom if not isinstance(v, dict)])
             if rng.random() < 0.7:
                 v = rng.choice(dom)
-                if v != "auto":
+                if v is not None and not (isinstance(v, str) and v == "auto"):
                     U[k] = v
         if not consistent({**U, **E}) or not consistent(U) or not consistent(E):
             continue
@@ -196,7 +213,24 @@ def run(ctx):
         case = {"explicit": E, "stored": U}
         # direct oracle
         bad = None
-        if st != rst:
+        has_recycle = isinstance({**U, **E}.get("recycle"), dict)
+        if st == "ok":
+            # the property, key by key: an explicitly passed value wins, otherwise the stored one applies
+            for k in sorted(set(E) | set(U)):
+                want = E[k] if k in E else U[k]
+                if k in ("init_va_degree",) and want is None:
+                    continue            # automatic value is derived ("dc"/"flat"), nothing to compare
+                if canon(obs(opts, k)) != canon(want) and not (k in ("init_vm_pu",) and want is None):
+                    is_masked = k in masked
+                    ctx.failure("arg-equals-default" if is_masked else f"per-key:{'explicit' if k in E else 'stored'}",
+                                f"option {k}: effective {obs(opts, k)!r}, expected {want!r} "
+                                f"({'explicitly passed' if k in E else 'stored, not passed'})",
+                                {"case": case, "key": k, "masked_keys": masked, "history": "net had a previous runpp",
+                                 "repro": "runpp(net); set_user_pf_options(net, overwrite=True, **stored); "
+                                          "runpp(net, **explicit); look at net._options[key]"})
+        if has_recycle:
+            pass    # an explicit recycle dict deliberately re-uses the previous options: no reference run for it
+        elif st != rst:
             bad = f"status {st}:{opts if st == 'err' else ''} vs reference {rst}:{ropts if rst == 'err' else ''}"
         elif st == "ok":
             diff = {k: (opts.get(k), ropts[k]) for k in ropts if opts.get(k) != ropts[k]}
@@ -231,6 +265,8 @@ def run(ctx):
             o = obs(opts, k)
             # an un-passed, un-stored kwargs-only key has no value in the model ('-'): the internal default applies
             expect = dom[int(eff_code)] if eff_code != "-" else dom[0]
+            if expect is None and k in ("init_vm_pu", "init_va_degree"):
+                continue          # automatic value: derived by the code, not an option value
             if canon(o) != canon(expect):
                 dis += 1
                 if dis <= 3:
